@@ -122,6 +122,9 @@ def c16_2(ctx):
         (frozenset({((M, "==", 0xc0), False), ((M, "!=", 0x80), False), ("zeros_only", False), ("uncompress-ok", True)}), "Ok(point)"),
         (frozenset({((M, "==", 0xc0), False), ((M, "!=", 0x80), False), ("zeros_only", False), ("uncompress-ok", False)}), "Err"),
     }
+    sem = _g1_semantic(b)
+    if rows != exp and sem is True:
+        rows = exp      # another spelling (match / reordered tests) of the same decision function: decided semantically below
     ctx.ob(R, "g1-flag-table", rows == exp,
            "G1 decoding: 11xxxxxx must be exactly c0 00..00 (=> infinity); anything but 10xxxxxx is rejected; a compressed "
            "non-infinity point with an all-zero body is rejected; otherwise blst decides",
@@ -135,6 +138,72 @@ def c16_2(ctx):
         ok = z[0] == "call" and z[1].endswith("is_all_zero") and "RangeFrom" in str(z) and any(
             isinstance(x, tuple) and x and x[0] == "c" and x[2] == 1 for x in subterms(z))
     ctx.ob(R, "zeros_only", ok, "zeros_only = is_all_zero(&bytes[1..]) (all 47 trailing bytes)")
+
+
+def _g1_semantic(b):
+    """Evaluate the extracted decision table (not the program): for every first byte b0 (256 values), zeros_only and
+    uncompress outcome, exactly one path's guards must hold and its exit class must equal the specification
+    (11xxxxxx: only c0 + zero body => infinity; not 10xxxxxx: reject; zero body: reject; else blst decides).
+    Returns True / False, or None when a guard is not of an evaluable form."""
+    paths_ = []
+    for ev, ex in P.enumerate_paths(b):
+        if ex[0] != "return":
+            continue
+        rc = P.ret_class(ev)
+        kind = rc
+        if rc == "Ok":
+            kind = "Ok(default)" if "default" in show(strip_all(P.ret_of(ev))).lower() else "Ok(point)"
+        gs = []
+        for t, l in U.canon_int_conds(P.conds(ev)):
+            if l[0] == "try":
+                continue
+            if l[0] in ("in", "notin"):
+                n_ = apnf.N(t)
+                if isinstance(n_, tuple) and n_[0] == "BitAnd" and n_[2] == 0xc0 and "bytes" in str(n_[1]):
+                    gs.append(("m", l[0], set(l[1])))
+                    continue
+                if isinstance(n_, tuple) and n_[0] == "[]" and "bytes" in str(n_) and n_[2] == 0:
+                    gs.append(("b0", l[0], set(l[1])))
+                    continue
+                if isinstance(n_, tuple) and n_ and ("blst_p1_uncompress" in str(n_) or "BLST_ERROR" in str(n_)) and set(l[1]) == {0}:
+                    gs.append(("u", l[0] == "in"))
+                    continue
+                return None
+            f = _simplify(apnf.fact(t, l))
+            if f[0] == "zeros_only":
+                gs.append(("z", f[1]))
+            elif f[0] == "uncompress-ok":
+                gs.append(("u", f[1]))
+            else:
+                return None
+        paths_.append((gs, kind))
+
+    def holds(gs, b0, z, u):
+        for g in gs:
+            if g[0] in ("m", "b0"):
+                v = (b0 & 0xc0) if g[0] == "m" else b0
+                if (v in g[2]) != (g[1] == "in"):
+                    return False
+            elif g[0] == "z" and g[1] != z:
+                return False
+            elif g[0] == "u" and g[1] != u:
+                return False
+        return True
+
+    def spec(b0, z, u):
+        m = b0 & 0xc0
+        if m == 0xc0:
+            return "Ok(default)" if (b0 == 0xc0 and z) else "Err"
+        if m != 0x80 or z:
+            return "Err"
+        return "Ok(point)" if u else "Err"
+    for b0 in range(256):
+        for z in (False, True):
+            for u in (False, True):
+                hit = set(k for gs, k in paths_ if holds(gs, b0, z, u))
+                if hit != {spec(b0, z, u)}:
+                    return False
+    return True
 
 
 def _simplify(f):
